@@ -119,3 +119,28 @@ Proof.
   split; intros [a Ha]; exists a; revert Ha; unfold sat, lp, encode_kpc; cbn [cols rows]; rewrite !Forall_app, HP, HC; tauto.
 Qed.
 Print Assumptions gen_kpc_feasible_iff.
+
+(* ---------------------------------------------------------------- kFlowDecomp with given weights: _encode_paths then _encode_flow_decomposition_with_given_weights *)
+From FPGen Require Gen_encode_kfdw EncKfdwSpec.
+Theorem gen_kfd_given_lp : forall (I : kfd_inst) (ws : list Q) (korig : nat) la rev,
+  let B := f_base I in let G := p_graph B in let k := p_k B in
+  wf_graph G -> cons_on_edges B -> length ws = k -> EncKfdwSpec.flows_present G (f_ignore I) (f_flow I) ->
+  exists colsP rowsP rowsW ob t1 t2 t3 t4 t5,
+    Gen_encode_paths.fn G (Z.of_nat k) (p_allow_empty B) (p_cons B) (p_cov B) (cl_of B) la false (lens_of B) rev
+      = (RetNone, colsP, rowsP, EncCommon.eidx G k, t1, t2, EncCommon.eidx G k, t3, t4, t5) /\
+    Gen_encode_kfdw.fn G (Z.of_nat k) (EncCommon.eidx G k) (f_ignore I) ws (Z.of_nat korig) (f_flow I) false false false false false
+      = (RetNone, [], rowsW, Some (ob, false)) /\
+    (forall a, sat a (lp colsP (rowsP ++ rowsW)) <-> sat a (encode_kfd_given I ws korig)) /\
+    (forall a, leval a ob == objective a (encode_kfd_given I ws korig)) /\ maximize (encode_kfd_given I ws korig) = false.
+Proof.
+  intros I ws korig la rev B G k W Hc Hlen Hf.
+  destruct (gen_paths_out B la rev W Hc) as (rowsP & t1 & t2 & t3 & EP & HP).
+  destruct (EncKfdwSpec.gen_encode_kfdw_spec B (f_flow I) (f_ignore I) ws korig W Hlen Hf) as (rowsW & ob & EW & HW & HO).
+  exists (base_cols B), rowsP, rowsW, ob, t1, t2, t3, [], []. split; [exact EP|]. split; [exact EW|]. split; [|split; [|reflexivity]].
+  - intro a. unfold sat, lp, encode_kfd_given; cbn [cols rows]. rewrite !Forall_app, HP, HW.
+    assert (Ek : forall a0, Forall (sat_row a0) (kfdw_rows {| f_base := B; f_flow := f_flow I; f_ignore := f_ignore I; f_wmax := 0; f_int := false |} ws korig) <->
+                            Forall (sat_row a0) (kfdw_rows I ws korig)) by (intro a0; unfold kfdw_rows; cbn [f_base f_flow f_ignore]; reflexivity).
+    rewrite Ek. reflexivity.
+  - intro a. unfold objective, encode_kfd_given; cbn [obj]. apply HO.
+Qed.
+Print Assumptions gen_kfd_given_lp.
